@@ -34,15 +34,30 @@ open Rtosc Rtosc.Path
 /-- one invocation of the walker callback: the port (index path) and the address -/
 abbrev Call := List Nat × Bytes
 
+/-- what an enabling port replies when it is queried: `T`, `F` (a toggle) or an integer
+    (`rParamI`, zynaddsubfx' `Penabled`) -/
+inductive Ans where
+  | T
+  | F
+  | i (v : Int)
+deriving DecidableEq, Repr
+
+/-- `rval.type == 'T' || (rval.type == 'i' && rval.val.i != 0)` -/
+def Ans.enabled : Ans → Bool
+  | .T => true
+  | .F => false
+  | .i v => v != 0
+
 /-- abstract runtime object -/
 inductive Obj where
-  | mk (toggles : List (Bytes × Bool)) (kids : List (Bytes × Option Obj))
+  | mk (toggles : List (Bytes × Ans)) (kids : List (Bytes × Option Obj))
 
 namespace Obj
-def toggles : Obj → List (Bytes × Bool) | mk t _ => t
+def toggles : Obj → List (Bytes × Ans) | mk t _ => t
 def kids : Obj → List (Bytes × Option Obj) | mk _ k => k
-/-- reply of the toggle port with this name (up to ':'); `none`: not defined -/
-def toggle (o : Obj) (key : Bytes) : Option Bool := o.toggles.lookup key
+/-- what `port_is_enabled` makes of the reply of the enabling port with this name (up to ':');
+    `none`: not defined -/
+def toggle (o : Obj) (key : Bytes) : Option Bool := (o.toggles.lookup key).map Ans.enabled
 /-- `RtData::obj` after the callback of a sub-tree port was sent `<rel>pointer`;
     `none`: not defined, `some none`: NULL -/
 def kid (o : Obj) (rel : Bytes) : Option (Option Obj) := o.kids.lookup rel
